@@ -22,7 +22,9 @@ EXPLANATION = (
     "single point of use: kernel / metric / parameter dictionaries / ovo are read only by get_gemini, compute_affinity, "
     "_compute_kernel and evaluate; (d) the user's y (precomputed affinity) is passed through by fit, fit_predict, score, path and "
     "the validation score. Not decided: numerical equality of fitted models.")
-ADOPT = [("C12", ["C12-a"], "kernel / metric / GEMINI choices reach the objective only if the constructor stores or forwards them")]
+ADOPT = [("C12", ["C12-a"], "kernel / metric / GEMINI choices reach the objective only if the constructor stores or forwards them"),
+         ("C12", ["C12-e"], "the affinity is the named kernel / metric evaluated with the GIVEN kernel_params / metric_params: a parameter dictionary that the library writes "
+                            "into is no longer the given one at its next use (another estimator, other data, a clone)")]
 ASSUMPTIONS = ["pairwise_kernels / pairwise_distances implement the named kernels and metrics"]
 
 FAMILY = {"MMD": ("MMDGEMINI", "pairwise_kernels"), "Wasserstein": ("WassersteinGEMINI", "pairwise_distances")}
